@@ -1,6 +1,7 @@
 """Property table: which pipeline decides which property."""
 from . import rec
 from . import gen
+from . import mig
 
 
 def _c13(res):
@@ -76,6 +77,7 @@ def _gen_prop(pid):
 
 TABLE = {
     **{pid: {"run": _gen_prop(pid), "replay": gen.replay, "level": "proof"} for pid in GEN},
+    "C18": {"run": mig.run, "replay": mig.replay, "level": "proof"},
     "C11": {"run": _c11, "replay": rec.replay, "level": "proof"},
     "C12": {"run": _c12, "replay": rec.replay, "level": "proof"},
     "C13": {"run": _c13, "replay": rec.replay, "level": "proof"},
